@@ -20,6 +20,9 @@ Definition mk_rw (d a : bytes) (p : option addr) : Rewrites.entry :=
     pipeline was observed to do. *)
 Inductive lstep :=
   | SChange (ch : lchange)
+  (* round 8: POST /control/filtering/config with the global filtering flag;
+     the rebuild it queues is carried out at once in this mode *)
+  | SFilt (on : bool)
   | SAsk (ss : list (bytes * N * ssverdict)) (q : request)
          (ups : list (bytes * option resp)) (up : option resp) (obs : outcome).
 
@@ -49,10 +52,15 @@ Definition PSet := Protection.PSet.
 Definition PConf := Protection.PConf.
 Definition PRead := Protection.PRead.
 Definition PWake := Protection.PWake.
+Definition BMode := Protection.BMode.
+Definition BTTL := Protection.BTTL.
 Inductive prstep :=
   | PrOp (o : Protection.pop) (accepted : bool)
   | PrRaw (flag has_until : bool)
   | PrStatus (now : Z) (enabled : bool)
+  (* round 8: POST /control/dns_config with blocking_mode (+ addresses) or
+     blocked_response_ttl (Model/Protection.bop) *)
+  | PrBlocking (o : Protection.bop)
   | PrAsk (now : Z) (ss : list (bytes * N * ssverdict)) (q : request)
           (ups : list (bytes * option resp)) (up : option resp) (obs : outcome).
 
@@ -257,6 +265,10 @@ Fixpoint run_lists (cf : cfg) (sb par : list bytes) (st : lstate) (steps : list 
   match steps with
   | nil => nil
   | SChange ch :: rest => run_lists cf sb par (apply_change st ch) rest
+  | SFilt on :: rest =>
+      let g := FilterSwitch.gstep FilterSwitch.gate_as_written FilterSwitch.config_always
+                 (FilterSwitch.mkG (c_filtering cf) (c_filtering cf) (pinit st)) (FilterSwitch.GConfig on) in
+      run_lists (FilterSwitch.cfg_filt cf (FilterSwitch.g_on g)) sb par st rest
   | SAsk ss q ups up obs :: rest =>
       let m := ask_model cf sb par st ss q ups up in
       (m, obs, outcome_eqb m obs) :: run_lists cf sb par st rest
@@ -275,7 +287,8 @@ Fixpoint run_queue (cf : cfg) (sb par : list bytes) (s : pstate) (steps : list q
   | nil => nil
   | QOp o :: rest => run_queue cf sb par (hstep s o) rest
   | QFilt on :: rest =>
-      let g := FilterSwitch.gstep FilterSwitch.gate_as_written (FilterSwitch.mkG (c_filtering cf) s) (FilterSwitch.GConfig on) in
+      let g := FilterSwitch.gstep FilterSwitch.gate_as_written FilterSwitch.config_always
+                 (FilterSwitch.mkG (c_filtering cf) (c_filtering cf) s) (FilterSwitch.GConfig on) in
       run_queue (FilterSwitch.cfg_filt cf (FilterSwitch.g_on g)) sb par (FilterSwitch.g_q g) rest
   | QPending n :: rest =>
       (empty_outcome, empty_outcome, N.of_nat (length (q_chan s)) =? n) :: run_queue cf sb par s rest
@@ -307,6 +320,8 @@ Fixpoint run_prot (cf : cfg) (allow block : list rule) (sb par : list bytes) (s 
       (empty_outcome, empty_outcome,
        Bool.eqb (Protection.pr_flag s) f && Bool.eqb (is_some (Protection.pr_until s)) u)
         :: run_prot cf allow block sb par s rest
+  | PrBlocking o :: rest =>
+      run_prot (Protection.bstep Protection.mode_always cf o) allow block sb par s rest
   | PrStatus now en :: rest =>
       (empty_outcome, empty_outcome, Bool.eqb (Protection.in_force now s) en)
         :: run_prot cf allow block sb par (snd (Protection.read now s)) rest
